@@ -339,6 +339,17 @@ def ensure_parent(tag):
         _parents_built[tag] = r[1]
 
 
+# inputs rejected in the MIDDLE (a ParseError that is not at the end of the input takes its own path
+# through the generated error functions), appended to every template's inputs
+MID_INPUT_ERRORS = {
+    'main': ['?', 'a:1 ?x', '(a?)', '<a ?>', '$a ?', 'a ?'],
+    'constructs': ['?', 'k a ?', '@a ?~1', '^a 1,?'],
+    'derived': ['?', '@a=?', '[?]', '(1,?)'],
+    'crossing': ['?', '(1)(a)?', '(?)', '(1)(?);'],
+    'optable': ['?', '1+?', '(1?'],
+}
+
+
 INPUTS = {
     'main': ['', 'a', 'a:1', 'a=b', 'a:1,2,3', 'a:1! b', '(a;b:2;)', '<a b>', '<a>3', '$a b', '$a ? b', '$a a', 'a:1 (b) <c d> $e f',
              '(a:1,2;(b))', 'a:', '(a', '<a b c>', '$', 'a : 1 , 2', '%22 <a b>', '%1 <a>', '%1 <>', '&a <b>', '&a <a>', '%22 <a> &x <y>', '<a b>', '<a b>22'],
@@ -352,6 +363,10 @@ INPUTS = {
                  ('rule', 'XEntry', '(1)(a)+;'), ('rule', 'XNum', '12')],
     'optable': ['1', '1+2', '1+2*3', '-1!', '(1+2)*3', '12x+1', '(1', '1+', '((1))!', '1*(2+3)!'],
 }
+
+
+for _k, _v in MID_INPUT_ERRORS.items():
+    INPUTS[_k] = INPUTS[_k] + [t for t in _v if t not in INPUTS[_k]]
 
 
 def exercise(g, text, mp=None):
